@@ -182,9 +182,17 @@ class HarnessFcEvaluator(FcEvaluator):
     edifact_format_version = VERSION
 
 
+_CONSTANT_ANSWERS: Dict[tuple, EvaluatedFormatConstraint] = {}
+
+
 def _fc_answer(key: str, world: World, text_before: Optional[str]) -> EvaluatedFormatConstraint:
     text_after = text_to_be_evaluated_by_format_constraint.get()
     world.log.append(("fc", key, world.id, text_before, text_after))
+    if world.fc_mode == "text-constant-objects":
+        # a user evaluator that answers with two long-lived objects per key (fulfilled / not fulfilled, no message of its own) instead of
+        # building a new result every time
+        ok = text_predicate(key, text_before)
+        return _CONSTANT_ANSWERS.setdefault((key, ok), EvaluatedFormatConstraint(format_constraint_fulfilled=ok, error_message=None))
     if world.fc_mode == "text":
         ok = text_predicate(key, text_before)
         return EvaluatedFormatConstraint(format_constraint_fulfilled=ok, error_message=None if ok else f"E{key}:{text_before!r}")
